@@ -201,24 +201,35 @@ fn call_tokens(row: &Row) -> String {
     }
 }
 
-/// canonical tokens of one emitted JSON text: top level (record object / aggregate rows) in the
-/// emitted order, nested objects key-sorted
+/// tokens of a parsed JSON text in exactly the emitted member order, at every level
+fn exact_tokens(j: &J, out: &mut Vec<String>) {
+    match j {
+        J::Arr(v) => {
+            out.push(format!("A{}", v.len()));
+            for x in v {
+                exact_tokens(x, out)
+            }
+        }
+        J::Obj(kvs) => {
+            out.push(format!("O{}", kvs.len()));
+            for (k, x) in kvs {
+                out.push(format!("S{}", enc::hex(k)));
+                exact_tokens(x, out)
+            }
+        }
+        other => canon::tokens(other, false, out),
+    }
+}
+
+/// tokens of one emitted JSON text (nested objects in the emitted order too: the code writes them
+/// key-sorted since the repair of C18/nested-key-order-nondeterministic)
 fn json_tokens(text: &str, table: bool) -> Result<String, String> {
     let j = canon::parse(text)?;
-    let mut toks = vec![];
-    if table {
-        match &j {
-            J::Arr(rows) => {
-                toks.push(format!("A{}", rows.len()));
-                for row in rows {
-                    canon::tokens(row, false, &mut toks);
-                }
-            }
-            _ => return Err("aggregate output is not an array".into()),
-        }
-    } else {
-        canon::tokens(&j, false, &mut toks);
+    if table && !matches!(j, J::Arr(_)) {
+        return Err("aggregate output is not an array".into());
     }
+    let mut toks = vec![];
+    exact_tokens(&j, &mut toks);
     Ok(toks.join(" "))
 }
 
